@@ -1,6 +1,6 @@
 (* Correspondence runner for C28: a history on the store with its file image; at every read point
    (fully committed memory) the index sets of FOUR handles -- live, reopened read-write, read-only,
-   opened after doctor{rebuild_lex_index / rebuild_time_index} -- as the model predicts them:
+   opened after doctor{rebuild_lex_index / rebuild_time_index / rebuild_vec_index} -- as the model predicts them:
    frame count, Tantivy documents holding the probe word, vector index ids, vec enabled, time index
    ids, sketch ids in track order.  At a peek point (records pending, instant-indexed puts in the
    engine) the ids a search for the probe word may return: engine documents that are in the table. *)
@@ -9,7 +9,7 @@ Local Open Scope N_scope.
 
 Inductive cop :=
 | COp (x : pop)
-| CRead (extra : N) (lexf timef : bool)
+| CRead (extra : N) (lexf timef vecf : bool)
 | CPeek.
 
 Definition C28_obs := (N * list N * list N * bool * list N * list N)%type.
@@ -29,10 +29,10 @@ Fixpoint run28 (p : pstore) (ops : list cop) : list sout * list C28_point * list
   | COp x :: rest =>
       let '(p1, o) := pstep p x in
       let '(os, pts, pks) := run28 p1 rest in (o :: os, pts, pks)
-  | CRead extra lexf timef :: rest =>
+  | CRead extra lexf timef vecf :: rest =>
       let '(os, pts, pks) := run28 p rest in
       (os, (obs_of (handle_live p), obs_of (handle_rw p extra), obs_of (handle_ro p),
-            obs_of (handle_doctor p lexf timef false)) :: pts, pks)
+            obs_of (handle_doctor p lexf timef vecf)) :: pts, pks)
   | CPeek :: rest =>
       let '(os, pts, pks) := run28 p rest in (os, pts, peek_of p :: pks)
   end.
